@@ -147,7 +147,8 @@ func main() {
 			var c streamCase
 			_ = json.Unmarshal(doc.Case, &c)
 			runStreamCase(se, c)
-		case "race", "crash":
+		case "race", "crash", "":
+			// (an ev.Supervise "process-died" witness carries no case)
 			// schedule dependent: re-run the whole workload of this seed/tier and see whether a race is reported again
 			runAll(r, ce, se)
 			raceVerdicts(r)
@@ -213,7 +214,7 @@ func main() {
 	r.FloorDistinct("compressor_goroutine_counts", 3)
 	r.FloorCount("streams", int64(r.Pick(140, 1700)))
 	r.FloorCount("streams_with_boundary_inside_length_prefix", int64(r.Pick(40, 450)))
-	r.FloorDistinct("stream_variants", int64(r.Pick(12, 20)))
+	r.FloorDistinct("stream_variants", int64(r.Pick(20, 30)))
 	r.FloorNontrivial(int64(r.Pick(300, 12000)))
 	r.FloorCount("oracles_agree", 1)
 	if r.Get("oracle_disagreements") == 0 {
